@@ -32,6 +32,8 @@ def build_ops(rng, spec):
 
 
 def run(res, replay=None):
+    # structural tie of phasegen/rewards.py: translate the CURRENT source and re-check proofs/GenRewardsEquiv.v against it
+    import translate_step; (res.proof is not None) and translate_step.run(res.proof, pid=res.pid, tie='rewards')
     rng = random.Random(res.seed)
     res.rule = ('moments stream: random single-locus configurations (n<=4, thorough n<=5; 1-3 demes; Kingman/Beta/'
                 'Dirac; 1-4 epochs with power-of-two sizes in [1/8, 8] and dyadic migration rates in [1/8, 2]; with and '
